@@ -111,9 +111,13 @@ def r10_1_4(ctx, f, pv, L, recs, V, Ln, Rt):
         for x in walk(rv):
             if x[0] == 'agg' and x[1] == 'raw::Meta' and 'root_addr' in dict(x[2]):
                 return L.lin(dict(x[2])['root_addr'])
+        cands = []
         for d in p.decisions:
-            e = pv.inline(d[2])
-            if e[0] == 'bin' and e[1] in ('Eq', 'Ne'):
+            e0 = pv.inline(d[2])
+            # the comparison itself, or one buried in a bool temporary (`let oversized_empty = root == EMPTY && ..`)
+            cands.extend(x for x in walk(e0) if x[0] == 'bin' and x[1] in ('Eq', 'Ne'))
+        for e in cands:
+            if True:
                 for a, b in ((e[2], e[3]), (e[3], e[2])):
                     if (b == ('const', 0) or b == ('citem', 'raw::EMPTY_ADDRESS')) and any(y[0] == 'call' and isinstance(y[1], str) and y[1].endswith('from_le_bytes') for y in walk(a)):
                         la = L.lin(a)
